@@ -7,7 +7,7 @@ Contracts (part of every claim that uses them):
 * LN: an uninterpreted function Real->Real; only true facts about ln are asserted
   (ratio rule on supplied base points, LN(1)=0, sign).
 """
-from vf.symkit import REPLAY, NoTracing, zv
+from vf.symkit import REPLAY, NoTracing, is_sym, zv
 
 if REPLAY is None:
     import z3
@@ -86,7 +86,7 @@ def _sym(term):
 
 def ln(x):
     with NoTracing():
-        if isinstance(x, (int, float)) and not hasattr(x, 'var'):
+        if not is_sym(x):
             import math
             return math.log(x)
         return _sym(_LN(zv(x)))
@@ -113,7 +113,7 @@ def ln_axioms(points):
 def sqrt_uf(x):
     """SQRT as a bare uninterpreted function (no axioms): for harnesses that compare radicands."""
     with NoTracing():
-        if isinstance(x, (int, float)) and not hasattr(x, 'var'):
+        if not is_sym(x):
             import math
             return math.sqrt(x)
         return _sym(_SQRT(zv(x)))
@@ -121,7 +121,7 @@ def sqrt_uf(x):
 
 def sqrt(x):
     with NoTracing():
-        if isinstance(x, (int, float)) and not hasattr(x, 'var'):
+        if not is_sym(x):
             import math
             return math.sqrt(x)
         t = zv(x)
@@ -192,7 +192,7 @@ class NpShim(object):
 
 def isclose_stub(a, b, rel_tol=1e-9, abs_tol=0.0):
     """math.isclose over the reals as ONE z3 formula (a single branch when the result is used)."""
-    if REPLAY is not None or not (hasattr(a, 'var') or hasattr(b, 'var')):
+    if REPLAY is not None or not (is_sym(a) or is_sym(b)):
         import math
         return math.isclose(a, b, rel_tol=rel_tol, abs_tol=abs_tol)
     with NoTracing():
@@ -204,3 +204,104 @@ def isclose_stub(a, b, rel_tol=1e-9, abs_tol=0.0):
         mb = z3.If(zb >= 0, zb, -zb)
         mx = z3.If(ma >= mb, ma, mb)
         return SymbolicBool(z3.Or(ad <= z3.RealVal(repr(rel_tol)) * mx, ad <= z3.RealVal(repr(abs_tol))))
+
+
+# ----------------------------------------------------------------------------------------------
+class Arr(object):
+    """Minimal 2-D array over (possibly symbolic) reals: what pgradd's uncertainty code needs from
+    numpy (zeros, row assignment with scalar broadcast, transpose, dot, scalar product, sqrt)."""
+
+    def __init__(self, rows):
+        self.rows = [list(r) for r in rows]
+
+    @property
+    def shape(self):
+        return (len(self.rows), len(self.rows[0]) if self.rows else 0)
+
+    def __setitem__(self, i, v):
+        if isinstance(i, tuple):
+            self.rows[i[0]][i[1]] = v
+        else:
+            self.rows[i] = [v] * len(self.rows[i])
+
+    def __getitem__(self, i):
+        if isinstance(i, tuple):
+            return self.rows[i[0]][i[1]]
+        return self.rows[i]
+
+    def T(self):
+        r, c = self.shape
+        return Arr([[self.rows[i][j] for i in range(r)] for j in range(c)])
+
+    def scale(self, s):
+        return Arr([[x * s for x in r] for r in self.rows])
+
+    def __mul__(self, s):
+        return self.scale(s)
+
+    __rmul__ = __mul__
+
+    def map(self, f):
+        return Arr([[f(x) for x in r] for r in self.rows])
+
+    def item(self):
+        if self.shape != (1, 1):
+            raise ValueError('can only convert an array of size 1 to a Python scalar')
+        return self.rows[0][0]
+
+    def __float__(self):
+        # numpy >= 2.x: float() of an array with ndim > 0 is a TypeError
+        raise TypeError('only 0-dimensional arrays can be converted to Python scalars')
+
+    def tolist(self):
+        return [list(r) for r in self.rows]
+
+
+def _as_arr(a):
+    if isinstance(a, Arr):
+        return a
+    if hasattr(a, 'tolist'):
+        a = a.tolist()
+    if a and not isinstance(a[0], (list, tuple)):
+        a = [a]
+    return Arr(a)
+
+
+def arr_zeros(shape, *a, **k):
+    if isinstance(shape, int):
+        shape = (1, shape)
+    return Arr([[0.0] * shape[1] for _ in range(shape[0])])
+
+
+def arr_dot(a, b):
+    a, b = _as_arr(a), _as_arr(b)
+    (ra, ca), (rb, cb) = a.shape, b.shape
+    if ca != rb:
+        raise ValueError('shapes not aligned')
+    out = []
+    for i in range(ra):
+        row = []
+        for j in range(cb):
+            acc = 0
+            for k in range(ca):
+                x, y = a.rows[i][k], b.rows[k][j]
+                # skip exact concrete zeros (keeps terms small; 0*x = 0 over the reals)
+                if (not is_sym(x) and x == 0) or (not is_sym(y) and y == 0):
+                    continue
+                acc = acc + x * y
+            row.append(acc)
+        out.append(row)
+    return Arr(out)
+
+
+def arr_transpose(a):
+    return _as_arr(a).T()
+
+
+NpShim.zeros = staticmethod(arr_zeros)
+NpShim.dot = staticmethod(arr_dot)
+NpShim.transpose = staticmethod(arr_transpose)
+_scalar_sqrt = NpShim.sqrt
+_scalar_square = NpShim.square
+NpShim.sqrt = staticmethod(lambda x: x.map(sqrt) if isinstance(x, Arr) else sqrt(x))
+NpShim.square = staticmethod(lambda x: x.map(lambda v: v * v) if isinstance(x, Arr) else x * x)
